@@ -142,6 +142,11 @@ def run(ctx: Ctx):
     for k in range(m):
         p = gen_prog(ctx.rng, k)
         items.append((p["source"], list(p["flags"]) if k % 4 else ["fix", "trim"]))
+    # projects that outsource data (new externals appear, are persisted and may be trimmed in the same session)
+    EXT = ("from inline_snapshot import snapshot, outsource, external\n\n\ndef test_e1():\n    assert outsource('a' * 40) == snapshot()\n\n\n"
+           "def test_e2():\n    assert [outsource(b'b' * 40), 1] == snapshot([0])\n\n\ndef test_e3():\n    assert 5 in snapshot([4, 5])\n")
+    for flags in (["create", "trim"], ["create", "fix", "trim"], ["fix", "trim"], ["create", "fix", "trim", "update"], ["trim"], ["create"]):
+        items.append((EXT, flags))
     for (src, flags), o in zip(items, tmap(run_session, items)):
         if o.get("infra"):
             raise RuntimeError("pytest session timed out twice (infrastructure)")
@@ -156,7 +161,7 @@ def run(ctx: Ctx):
             why = "the report shows a formatter problem for a preview that inline-snapshot itself corrupted"
         if why:
             ctx.report("C18 oracle: " + why + f" (flags {flags})", {"kind": "session", "source": src, "flags": flags, "output": o["tail"]}, tag=classify_session(src, flags, o))
-    ctx.coverage["oracle"]["sessions"] = m
+    ctx.coverage["oracle"]["sessions"] = len(items)
 
 
 def replay(ctx: Ctx, data):
